@@ -235,6 +235,81 @@ func checkC09(w *Worker) {
 			}
 		}
 	}
+	// a long file: the malformed lines lie beyond the first 4096 bytes / have four-digit line numbers
+	w.Explore("long-file", ExploreOpts{ShardDepth: 3}, func(x *Exec) {
+		role := x.Choose(3, "input:role")
+		at := []int{2, 3, 400, 1001, 1498}[x.Choose(5, "input:first-bad-line")]
+		second := x.Choose(2, "input:second-bad-line")
+		b1 := c09Bad[x.Choose(len(c09Bad), "input:bad-kind")]
+		var sb strings.Builder
+		var msgs []string
+		var raws []string
+		var nums []int
+		line := 0
+		emit := func(s string) { sb.WriteString(s + "\n"); line++ }
+		for r := 0; line < 1500; r++ {
+			if role == 1 {
+				emit(fmt.Sprintf("20%02d/%02d/%02d:", 21+r/336, 1+(r/28)%12, 1+r%28))
+			} else {
+				emit(fmt.Sprintf("recipe %d:", r))
+			}
+			for e := 0; e < 3; e++ {
+				if (len(nums) == 0 && line+1 >= at) || (second == 1 && len(nums) == 1 && line+1 >= nums[0]+7) {
+					b := b1
+					if len(nums) == 1 {
+						b = c09Bad[3]
+					}
+					emit(b.Text)
+					msgs = append(msgs, b.message(line))
+					raws = append(raws, b.Text)
+					nums = append(nums, line)
+					continue
+				}
+				emit(fmt.Sprintf("  food/%d: %d", e, e+1))
+			}
+			if r%5 == 0 {
+				emit("# a comment")
+				emit("")
+			}
+		}
+		full := sb.String()
+		x.Case(fmt.Sprint("long", role, at, second, b1.Text), true)
+		if len(nums) == 0 {
+			hfail("long-file generator planted nothing (at=%d)", at)
+		}
+		if role == 2 {
+			c := appCase{Args: []string{"lint", "file.yaml"}, Files: map[string]string{"file.yaml": full}}
+			r := runApp(c)
+			x.Obs(r.Key())
+			got := splitLines(r.Stdout)
+			ok := len(got) == len(nums)
+			for i := 0; ok && i < len(got); i++ {
+				ok = quotes(got[i], raws[i], nums[i])
+			}
+			if !ok || r.Panic != "" {
+				x.Violate("C09|lint|long-file|wrong-messages", fmt.Sprintf("lint on a %d-line file with malformed lines %v prints:\n%s\nexpected (current wording):\n%s", line, nums, tailStr(r.Stdout, 600), strings.Join(msgs, "\n")), nil)
+			}
+			return
+		}
+		files := map[string]string{"food.yaml": "r1:\n  cal: 2\n", "log.yaml": "2021/01/24:\n  r1: 1\n"}
+		cmds := c09DbCmds
+		if role == 0 {
+			files["food.yaml"] = full
+		} else {
+			files["log.yaml"] = full
+			cmds = c09LogCmds
+		}
+		for _, cmd := range cmds {
+			c := appCase{Args: append([]string{"--no-color"}, cmd...), Files: files}
+			r := runApp(c)
+			x.Obs(fmt.Sprint(r.Failed, r.Err))
+			name := strings.Join(cmd, " ")
+			if r.Panic != "" || !r.Failed || !quotes(r.Err, raws[0], nums[0]) {
+				x.Violate("C09|"+[]string{"book", "log"}[role]+"|"+name+"|long-file|wrong-error", fmt.Sprintf("`%s` on a %d-line %s with the first malformed line %q at line %d: failed=%v error %q panic %q", name, line, []string{"book", "log"}[role], raws[0], nums[0], r.Failed, r.Err, firstLine(r.Panic)), nil)
+				return
+			}
+		}
+	})
 	if w.Tier == "quick" {
 		w.Explore("k<=1-layout-dev1", ExploreOpts{ShardDepth: 6, Budgets: map[string]int{"layout": 1}}, body(0, 1))
 		w.Explore("k=2-default-layout", ExploreOpts{ShardDepth: 6, Budgets: map[string]int{"layout": 0}}, body(2, 2))
